@@ -96,7 +96,7 @@ def zero_return_clean(g, cg, freeing):
 
 def check(run, prog, tier, cg, eff):
     run.rule("C09-c", "an interactive_t* held across a call that may free connection records (reaches remove_interactive or the LPC interpreter and returns) is re-validated (`ob->interactive == ip`) or re-loaded before it is dereferenced or passed on", 20)
-    strong = cg.reaches(FREE_SEEDS, barriers=NO_RETURN | {"receive_snoop"})
+    strong = cg.reaches(FREE_SEEDS, barriers=NO_RETURN | {"receive_snoop"}, cut_edges=cg.snoop_edges())
     weak = cg.reaches(FREE_SEEDS, barriers=NO_RETURN)
     # tell_object(ob, ..) takes only its add_message branch when ob->interactive is set
     tobj = prog.func("tell_object")
